@@ -585,6 +585,19 @@ pub fn run(run: &Run) {
 }
 
 pub fn replay(section: &str, case: &Value) -> Option<CheckResult> {
+    if let Some(b) = case.get("enum_block").and_then(|b| b.as_u64()) {
+        // a block named by the watchdog / crash supervisor
+        let rep = match section {
+            "call-histories" => history_block(b),
+            "thread-teardown" => teardown_block(b),
+            "thread-hand-over" => handover_block(b),
+            _ => return None,
+        };
+        return Some(match rep.violation {
+            Some((_, v)) => Err(v),
+            None => Ok(Pass::new(true).class("enumeration-block")),
+        });
+    }
     if section == "call-histories" {
         // re-execute the whole history of that block on this thread
         let b = case["history_block"].as_u64()?;
